@@ -129,6 +129,9 @@ func cmdCheck(args []string) int {
 			}
 		}
 		for k, n := range ex.Inconclusive {
+			if ex.cfg.HangCheck && strings.HasPrefix(k, "unwind:") {
+				continue // decided by native replay below (hang or not)
+			}
 			hs.Inconclusive = append(hs.Inconclusive, fmt.Sprintf("%s (x%d)", k, n))
 			fmt.Printf("INCONCLUSIVE property=%s harness=%s %s (x%d)\n", prop, r.Spec.Name, k, n)
 			exhaustive = false
